@@ -174,6 +174,29 @@ def shape_lrus(max_depth=3, classes=(3, 74, 75, 148, 149, 222)):
     return out
 
 
+def orders(pl, full_upto=4):
+    """Orders in which a prefix list is handed to a query: every permutation when the list has
+    at most `full_upto` entries (24 for 4), else the sorted list, its reverse and all rotations
+    of both (every prefix gets to be first, last, before and after every other one)."""
+    import itertools
+
+    pl = list(pl)
+    if len(pl) <= full_upto:
+        return [list(o) for o in itertools.permutations(pl)]
+    out = []
+    for base in (pl, list(reversed(pl))):
+        for i in range(len(pl)):
+            o = base[i:] + base[:i]
+            if o not in out:
+                out.append(o)
+    return out
+
+
+def few_orders(pl):
+    """A cheaper covering set: sorted, reversed and every rotation of both (<= 2n orders)."""
+    return orders(pl, full_upto=1)
+
+
 SH = b"s:http|"  # a one-stem prefix (scheme-wide catch-all webentity)
 LONGP = Ab + L.long_stem(149)  # a page with a 3-block stem below Ab
 
